@@ -336,6 +336,7 @@ SUM_TO_ZERO = [P('DUP'), P('EQ'), P('IF', [P('DIP', [P('DROP')])],
 REC_SUM = P('LAMBDA_REC', P('int'), P('int'), SUM_TO_ZERO)
 REC_CONST = P('LAMBDA_REC', P('int'), P('int'), [P('DIP', [P('DROP')]), P('PUSH', P('int'), I(1)), P('ADD')])
 REC_SELF = P('LAMBDA_REC', P('unit'), P('nat'), [P('DROP'), P('DROP'), P('PUSH', P('nat'), I(3))])
+PUSH_REC = P('PUSH', P('lambda', P('int'), P('int')), P('Lambda_rec', [P('DIP', [P('DROP')]), P('PUSH', P('int'), I(1)), P('ADD')]))
 DEC_LOOP = P('LOOP', [P('PUSH', P('int'), I(1)), P('SWAP'), P('SUB'), P('DUP'), P('GT')])      # int:S -> int:S counts down to <= 0
 COUNT_LEFT = P('LOOP_LEFT', [P('DUP'), P('PUSH', P('nat'), I(3)), P('COMPARE'), P('LE'),
                              P('IF', [P('RIGHT', P('nat'))], [P('PUSH', P('nat'), I(1)), P('ADD'), P('LEFT', P('nat'))])])
@@ -369,7 +370,7 @@ THEMES = [
                                                                                  P('LEFT', P('string')), P('RIGHT', P('int')), P('RIGHT', P('nat')), P('LEFT', P('nat'))]),
     Theme('lambdas', [['int', 'int'], ['pair int int', 'int'], ['lambda int int', 'int'], ['lambda (pair int string) int', 'int', 'string'],
                       ['unit'], ['nat']],
-          [g_lambda, g_lambda_rec, g_lambda_exec, REC_SUM, REC_CONST, REC_SELF, P('EXEC'), P('APPLY'), g_dip, g_push_same] + S_('SWAP', 'DUP', 'DROP', 'PAIR', 'ADD', 'UNIT')
+          [g_lambda, g_lambda_rec, g_lambda_exec, REC_SUM, REC_CONST, REC_SELF, PUSH_REC, P('EXEC'), P('APPLY'), g_dip, g_push_same] + S_('SWAP', 'DUP', 'DROP', 'PAIR', 'ADD', 'UNIT')
           + N_('DUP', 2, 3) + N_('DIG', 2) + [g_push(('int', [3, 5]), ('string', [1]), ('lambda int int', [1, 3]))],
           body=S_('DROP', 'DUP', 'SWAP', 'ADD', 'MUL', 'CAR', 'CDR', 'UNPAIR', 'PAIR', 'EXEC', 'NEG', 'NIL_NAT', 'CONS') + N_('DUP', 2) + [P('FAILWITH'), g_push(('int', [1]), ('nat', [1])), P('DIP', [P('DROP')])]),
     Theme('structures', [['int', 'nat', 'string'], ['pair int nat string bool', 'bytes'], ['pair (pair int nat) (pair string (pair bool unit))', 'int'],
